@@ -937,6 +937,46 @@ func (*VMValue).ToJSONRaw
   ensures [C09] v == nil ==> result1 != nil
   ensures [C09] result1 == nil ==> len(result0) > 0 || true
 
+// ---- roll.peg.go / parser_errors.go: positions and error rendering (C19) ----
+
+func (*parser).read
+  props C19 C01
+  requires 0 <= p.pt.offset && 0 <= p.pt.w && p.pt.offset + p.pt.w <= len(p.data)
+  requires 0 <= p.pt.col && p.pt.col < 1<<62 && 1 <= p.pt.line && p.pt.line < 1<<62
+  ensures [C19] 0 <= p.pt.offset && 0 <= p.pt.w && p.pt.offset + p.pt.w <= len(p.data)
+  ensures [C19] p.pt.offset == old(p.pt.offset) + old(p.pt.w)
+  ensures [C19] p.pt.line == old(p.pt.line) || (p.pt.line == old(p.pt.line) + 1 && p.pt.col == 0)
+  ensures [C19] p.pt.line == old(p.pt.line) ==> p.pt.col == old(p.pt.col) + 1
+  goal [C19] p.pt.rn == '\n' ==> p.pt.line == old(p.pt.line)
+
+func (*parser).failAt
+  props C19 C01
+  requires pos != nil
+  ensures [C19] p.maxFailPos.offset == old(p.maxFailPos.offset) || p.maxFailPos.offset == pos.offset
+  ensures [C19] p.maxFailPos.offset >= old(p.maxFailPos.offset)
+
+func formatFriendlyError
+  props C19 C01
+  requires [C19] 0 <= pos.offset && pos.offset <= len(input)
+  ensures result != nil
+
+func fmtErr
+  props C19 C01
+  ensures result != nil
+
+func getLineAtBytes
+  props C19 C01
+
+func getPrevNonSpaceChar
+  props C19 C01
+  requires 0 <= offset && offset <= len(input)
+  loop 1
+    invariant -1 <= i && i < offset
+    decreases i + 1
+
+func findUnclosedBracketBytes
+  props C19 C01
+
 func cloneStrings
   props C17
   assigns elem.string
